@@ -17,7 +17,9 @@
     Outside the class the statement is false: [C18_class_boundary_F5] (four visits).
     End to end (snapLevel, snapPolygon; all flag combinations): section END TO END below —
     [C18_end_to_end_edges], [C18_snapPolygon_edges_are_routed_steps], [C18_end_to_end_area], [C18_snapPolygon_area].
-    The nesting clause ("every hole lies inside or on its shell") has no theorem: search only. *)
+    The nesting clause ("every hole lies inside or on its shell"): vertex form only, [C18_nesting_vertex_partial]
+    (every hole was attached because ringContains found one of its vertices in or on the shell); the full clause
+    is search only. *)
 From Coq Require Import ZArith List Bool Permutation.
 From Texel Require Import Prelude.Base Index.Model Snap.Model Snap.ProofsBasics Snap.ProofsSplit
   Snap.ProofsSplitRefine Snap.ProofsSplitThms Snap.ProofsDedupeCancel Snap.ProofsLevel Snap.ProofsLevelThms
@@ -310,3 +312,64 @@ Example C18_end_to_end_example_spike_and_hole :
     Ok (Some [[[(4,4);(44,4);(44,44);(20,44);(4,44)]; [(12,12);(12,20);(20,20);(20,12)]]; [[(20,44);(20,60)]]]) /\
   sum_xprod (concat [[[(4,4);(44,4);(44,44);(20,44);(4,44)]; [(12,12);(12,20);(20,20);(20,12)]]; [[(20,44);(20,60)]]]) = 3200 - 128.
 Proof. split; [apply class_le2b_sound; vm_compute; reflexivity |]. vm_compute. repeat split; reflexivity. Qed.
+
+(** * the nesting clause, vertex form — PARTIAL (Snap/ProofsJoinC18b.v).
+
+    What the model's matching guarantees, for every list of rings and every configuration: in every polygon of the
+    level (before the reverse-winding-order flag reverses its rings, [ps0]) every hole [h] was attached to its shell
+    [o] because the model's own point-in-ring test answered "contained or on the boundary" for a vertex of [h]
+    ([vertex_contained o h]: exists v on, In v h /\ ringContains o v = Ok (true, on)) — the vertex that made the
+    shell the single winner, or one of those that made it a candidate when the largest candidate is taken.
+    Holes of which no shell contains a vertex are not attached at all: they become shells of their own.
+    MISSING for the clause of the property ("every hole lies inside or on its shell"):
+    (a) only ONE vertex of the hole is known to be in or on the shell; that all other points of the hole are inside
+        needs that hole and shell do not cross, i.e. that routing preserves the topology of a valid polygon (C01),
+        which is not a theorem (search only);
+    (b) [ringContains] itself is the model of the implementation's ray test (held to it by correspondence); only its
+        boundary answer has an exact specification here ([C18_ringContains_boundary_exact]); that its parity answer
+        is the crossing number of the ring is not proved. *)
+From Texel Require Import Snap.ProofsJoinC18b.
+
+Theorem C18_nesting_vertex_partial : forall g hots P cfg L ps, snapLevel g hots P cfg L = Ok (Some ps) ->
+  exists ps0 pls, ps = flipb (reverseWindingOrder cfg) ps0 ++ map (fun pl : ring => [pl]) pls /\
+    Forall (fun p : polygon => exists o a, p = o :: a /\
+              Forall (fun h : ring => exists v on, In v h /\ ringContains o v = Ok (true, on)) a) ps0 /\
+    Forall (fun pl : ring => (1 <= length pl <= 2)%nat) pls.
+Proof. exact level_nested. Qed.
+Print Assumptions C18_nesting_vertex_partial.
+
+(** without the flag, directly on the returned polygons *)
+Theorem C18_nesting_vertex_partial_noflip : forall g hots P cfg L ps, reverseWindingOrder cfg = false ->
+  snapLevel g hots P cfg L = Ok (Some ps) ->
+  forall shell holes h, In (shell :: holes) ps -> In h holes ->
+    exists v on, In v h /\ ringContains shell v = Ok (true, on).
+Proof. exact level_nested_noflip. Qed.
+Print Assumptions C18_nesting_vertex_partial_noflip.
+
+(** the component: matchInnersToPolygons on single-ring polygons *)
+Theorem C18_match_attaches_on_contained_vertex : forall (outs ins : list ring) ps,
+  matchInnersToPolygons (map (fun o => [o]) outs) ins = Ok ps ->
+  Forall (fun p : polygon => exists o a, p = o :: a /\
+            Forall (fun h : ring => exists v on, In v h /\ ringContains o v = Ok (true, on)) a) ps.
+Proof. exact match_nested. Qed.
+Print Assumptions C18_match_attaches_on_contained_vertex.
+
+(** when ringContains reports the boundary, the point is exactly on a closed edge of the ring (collinear with its
+    end points and within their bounding box), the closing edge first-last included *)
+Theorem C18_ringContains_boundary_exact : forall (o : ring) v b, ringContains o v = Ok (b, true) ->
+  exists a c, (In (a, c) (ProofsBasics.pairs o) \/ (a = hd (0, 0) o /\ c = last o (0, 0))) /\
+    (fst c - fst a) * (snd v - snd a) = (snd c - snd a) * (fst v - fst a) /\
+    Z.min (fst a) (fst c) <= fst v <= Z.max (fst a) (fst c) /\
+    Z.min (snd a) (snd c) <= snd v <= Z.max (snd a) (snd c).
+Proof. exact ringContains_on. Qed.
+Print Assumptions C18_ringContains_boundary_exact.
+
+(** non-vacuity: the shell with a spike and a hole (level 3): the hole's first vertex (12,12) is strictly inside the
+    returned shell; a hole touching the shell's corner pixel is attached through a boundary vertex *)
+Example C18_nesting_vertex_example :
+  snapLevel c18G (hotsOf c18G c18Spike) c18Spike (mkConfig true false false) 3 =
+    Ok (Some [[[(4,4);(44,4);(44,44);(20,44);(4,44)]; [(12,12);(12,20);(20,20);(20,12)]]; [[(20,44);(20,60)]]]) /\
+  ringContains [(4,4);(44,4);(44,44);(20,44);(4,44)] (12,12) = Ok (true, false) /\
+  ringContains [(4,4);(44,4);(44,44);(20,44);(4,44)] (44,20) = Ok (true, true) /\
+  ringContains [(4,4);(44,4);(44,44);(20,44);(4,44)] (52,20) = Ok (false, false).
+Proof. vm_compute. repeat split; reflexivity. Qed.
